@@ -58,6 +58,7 @@ struct ClmRoundtrip : Family {
 				if (r.chance(1, 8) && nm.size() > 1) { static const char P[] = {'.', '-', ',', '+', '!', ' ', '.', '-'}; nm[1 + r.below(nm.size() - 1)] = P[r.below(8)]; } // characters that sort below '.'; a dot inside the base name
 				if (!names.empty() && r.chance(1, 3)) { const std::string& o = names[r.below(names.size())]; nm = (o.substr(0, 1 + r.below(o.size())) + randName(r, 1, 3, false)).substr(0, 8); }
 				if (r.chance(1, 8)) nm = digestTwin(names, r, 8); // different names with one 32-bit digest
+				if (!nm.empty() && nm[0] == '_') nm[0] = 'u';
 				bool clash = false;
 				for (auto& o : names) if (ref::nameEqualNoCase(o, nm)) clash = true;
 				if (!clash) break;
